@@ -1,61 +1,377 @@
 package distiller
 
-// Replay harness for C06: with a page URL, every link/media URL in the distilled HTML and every
-// ContentImages entry must be absolute (pass-through forms excepted). Injected with -overlay.
+// Replay / bounded harness for C06: with a page URL, every link/media URL in the distilled HTML
+// (href, src, poster, every srcset candidate; outside embed placeholders) and every ContentImages
+// entry is the source value resolved against the page URL; empty, fragment-only, data:,
+// javascript:, already absolute and unparseable values are passed through unchanged; without a
+// page URL nothing is rewritten. Injected with -overlay; runs the public API on
+// URL form x carrying element x page URL. Every failing case prints "GOVC-FAIL <case-key> :: <message>".
 
 import (
+	"fmt"
 	nurl "net/url"
 	"strings"
 	"testing"
 
 	"github.com/go-shiori/dom"
+	"golang.org/x/net/html"
 )
 
-var govcAbsDocs = []string{
-	`<html><body><article><p>` + strings.Repeat("Lorem ipsum dolor sit amet consectetur adipiscing elit. ", 20) + ` <a href="rel/x.html">relative link</a> and <a href="/rooted">rooted</a> and <a href="#frag">frag</a> and <a href="?q=1">query</a></p>
-<p>` + strings.Repeat("More text follows here with enough words to be kept as content. ", 12) + `<img src="img/a.png" srcset="img/a1.png 1x, img/a2.png 2x"></p>
-<table><caption>T</caption><tr><th>h</th><th>i</th></tr><tr><td><a href="cell.html">c</a></td><td><img src="t.png"></td></tr><tr><td>3</td><td>4</td></tr></table>
-<video poster="p.png"><source src="v.mp4"><track src="t.vtt"></video>
-<figure><img src="f.png"><figcaption>cap <a href="capt.html">l</a></figcaption></figure>
-<p>` + strings.Repeat("Even more text follows here so that the media above is retained. ", 12) + `</p></article></body></html>`,
+var govcC06Prose = []string{
+	"The harbour authority published its yearly report on Tuesday morning and the figures surprised nearly everyone who had followed the slow decline of freight traffic during the previous decade, because container volumes rose sharply while passenger ferries kept losing customers to the new bridge.",
+	"Local residents told reporters that the noise from the extended quay had become a daily burden, although several shop owners along the waterfront said the additional workers had saved their businesses from closing after three very difficult winters in a row without tourists.",
+	"Officials promised that an independent study would examine the long term effects on the estuary, including the seabird colonies on the northern sandbanks, and that the complete results would be presented to the regional council before any further construction permits were granted next spring.",
+	"Meanwhile the shipping companies announced plans to replace their oldest vessels with quieter hybrid models, a step that environmental groups welcomed cautiously while pointing out that similar promises had been made and quietly abandoned twice before when fuel prices fell again.",
 }
 
-func govcIsAbsOrPass(v string) bool {
+const govcC06Data = "data:image/png;base64,iVBORw0KGgoAAAANSUhEUgAAAAEAAAABCAYAAAAfFcSJAAAADUlEQVR42mNkYPhfDwAChwGA60e6kgAAAABJRU5ErkJggg" +
+	"AAAAAAAAAAAAAAAAAAAAAAAAAAAAAAAAAAAAAAAAAAAAAAAAAAAAAAAAAAAAAAAAAAAAAAAAAAAAAAAAAAAAAAAAAAAAAAAAAAAAAAAAAAAAAAAAAAAAAAAAAA=="
+
+type govcC06Form struct {
+	key, val string
+	inSrcset bool // usable as a srcset candidate URL (no white space, not empty)
+}
+
+var govcC06Forms = []govcC06Form{
+	{"relative", "rel/x.png", true},
+	{"rooted", "/rooted.png", true},
+	{"parent", "../up.png", true},
+	{"parent2", "../../far/up.png", true},
+	{"dot", "./same.png", true},
+	{"query", "?q=1", true},
+	{"fragment", "#frag", true},
+	{"schemerel", "//cdn.example.org/a.png", true},
+	{"abs-http", "http://other.example.org/p/a.png", true},
+	{"abs-https", "https://other.example.org/a.png?x=1&y=2", true},
+	{"abs-upper", "HTTP://EXAMPLE.ORG/Upper.png", true},
+	{"data", govcC06Data, true},
+	{"javascript", "javascript:void(0)", false},
+	{"mailto", "mailto:someone@example.org", false},
+	{"empty", "", false},
+	{"spaces", "my dir/a b.png", false},
+	{"percent", "my%20dir/a%2Fb.png?x=%41", true},
+	{"relfrag", "rel/doc.html#part", true},
+	{"unparseable", "rel/%zz.png", true},
+}
+
+// expected output value of one URL value
+func govcC06Expected(v string, base *nurl.URL) string {
+	if base == nil || v == "" || strings.HasPrefix(v, "#") || strings.HasPrefix(v, "data:") || strings.HasPrefix(v, "javascript:") {
+		return v
+	}
+	u, err := nurl.Parse(v)
+	if err != nil {
+		return v // unparseable: passed through
+	}
+	if u.Scheme != "" && u.Host != "" {
+		return v // already absolute
+	}
+	return base.ResolveReference(u).String()
+}
+
+func govcC06AbsOrPass(v string) bool {
 	if v == "" || strings.HasPrefix(v, "#") || strings.HasPrefix(v, "data:") || strings.HasPrefix(v, "javascript:") {
 		return true
 	}
 	u, err := nurl.Parse(v)
-	return err == nil && u.Scheme != "" && u.Host != ""
+	return err != nil || u.IsAbs()
+}
+
+type govcC06Cand struct{ url, desc string }
+
+// srcset parser following the HTML candidate syntax (URL = run of non-white-space, trailing commas
+// end the candidate, otherwise a descriptor follows up to the next comma)
+func govcC06ParseSrcset(s string) []govcC06Cand {
+	var out []govcC06Cand
+	i := 0
+	isWS := func(c byte) bool { return c == ' ' || c == '\t' || c == '\n' || c == '\r' || c == '\f' }
+	for i < len(s) {
+		for i < len(s) && (isWS(s[i]) || s[i] == ',') {
+			i++
+		}
+		if i >= len(s) {
+			break
+		}
+		j := i
+		for j < len(s) && !isWS(s[j]) {
+			j++
+		}
+		u := s[i:j]
+		i = j
+		if strings.HasSuffix(u, ",") {
+			out = append(out, govcC06Cand{strings.TrimRight(u, ","), ""})
+			continue
+		}
+		j = i
+		for j < len(s) && s[j] != ',' {
+			j++
+		}
+		out = append(out, govcC06Cand{u, strings.TrimSpace(s[i:j])})
+		i = j
+	}
+	return out
+}
+
+type govcC06Probe struct {
+	kind    string
+	attr    string // href | src | poster | srcset
+	vals    []string
+	descs   []string
+	snippet string
+	images  []string // every image URL value written into the document
+	find    func(root *html.Node) *html.Node
+}
+
+func govcC06FindLink(root *html.Node) *html.Node {
+	for _, a := range dom.QuerySelectorAll(root, "a") {
+		if strings.Contains(dom.TextContent(a), "govcprobelink") {
+			return a
+		}
+	}
+	return nil
+}
+
+func govcC06Sel(sel string) func(*html.Node) *html.Node {
+	return func(root *html.Node) *html.Node { return dom.QuerySelector(root, sel) }
+}
+
+func govcC06Esc(v string) string { return html.EscapeString(v) }
+
+// the carrying elements for a single-valued attribute
+func govcC06SingleProbes(v string) []govcC06Probe {
+	e := govcC06Esc(v)
+	fix := "http://static.example.net/fixed.png"
+	return []govcC06Probe{
+		{kind: "a-paragraph", attr: "href", vals: []string{v}, find: govcC06FindLink,
+			snippet: `<p>Readers who want the complete background can follow <a href="` + e + `">govcprobelink to the archive</a> where the earlier reports, the council minutes and the letters from the harbour master are collected together with maps of every planned extension of the quay.</p>`},
+		{kind: "a-tablecell", attr: "href", vals: []string{v}, find: govcC06FindLink,
+			snippet: `<table><caption>Freight volumes per year</caption><thead><tr><th>Year</th><th>Containers</th><th>Source</th></tr></thead><tbody><tr><td>2019</td><td>120000</td><td><a href="` + e + `">govcprobelink report</a></td></tr><tr><td>2020</td><td>135000</td><td>harbour office</td></tr><tr><td>2021</td><td>150500</td><td>harbour office</td></tr></tbody></table>`},
+		{kind: "a-figcaption", attr: "href", vals: []string{v}, find: govcC06FindLink, images: []string{fix},
+			snippet: `<figure><img src="` + fix + `" alt="quay"><figcaption>The extended quay seen from the north, <a href="` + e + `">govcprobelink photo credit</a></figcaption></figure>`},
+		{kind: "img-standalone", attr: "src", vals: []string{v}, find: govcC06Sel("img[alt=govcprobe]"), images: []string{v},
+			snippet: `<img src="` + e + `" alt="govcprobe">`},
+		{kind: "img-in-div", attr: "src", vals: []string{v}, find: govcC06Sel("img[alt=govcprobe]"), images: []string{v},
+			snippet: `<div class="photo"><img src="` + e + `" alt="govcprobe" width="640" height="480"></div>`},
+		{kind: "img-figure", attr: "src", vals: []string{v}, find: govcC06Sel("figure img[alt=govcprobe]"), images: []string{v},
+			snippet: `<figure><img src="` + e + `" alt="govcprobe"><figcaption>Cranes at the new terminal during the night shift</figcaption></figure>`},
+		{kind: "img-tablecell", attr: "src", vals: []string{v}, find: govcC06Sel("table img[alt=govcprobe]"), images: []string{v},
+			snippet: `<table><caption>Freight volumes per year</caption><thead><tr><th>Year</th><th>Containers</th><th>Chart</th></tr></thead><tbody><tr><td>2019</td><td>120000</td><td><img src="` + e + `" alt="govcprobe"></td></tr><tr><td>2020</td><td>135000</td><td>none</td></tr><tr><td>2021</td><td>150500</td><td>none</td></tr></tbody></table>`},
+		{kind: "video-poster", attr: "poster", vals: []string{v}, find: govcC06Sel("video"),
+			snippet: `<video poster="` + e + `" width="640" height="360" controls><source src="http://static.example.net/clip.mp4" type="video/mp4"></video>`},
+		{kind: "video-src", attr: "src", vals: []string{v}, find: govcC06Sel("video"),
+			snippet: `<video src="` + e + `" width="640" height="360" controls></video>`},
+		{kind: "video-source", attr: "src", vals: []string{v}, find: govcC06Sel("video source"),
+			snippet: `<video width="640" height="360" controls><source src="` + e + `" type="video/mp4"></video>`},
+		{kind: "video-track", attr: "src", vals: []string{v}, find: govcC06Sel("video track"),
+			snippet: `<video width="640" height="360" controls><source src="http://static.example.net/clip.mp4" type="video/mp4"><track src="` + e + `" kind="subtitles" srclang="en"></video>`},
+	}
+}
+
+type govcC06SrcsetShape struct {
+	key   string
+	urls  []string // "%" is replaced by the URL form under test
+	descs []string
+}
+
+var govcC06SrcsetShapes = []govcC06SrcsetShape{
+	{"one-nodesc", []string{"%"}, []string{""}},
+	{"one-1x", []string{"%"}, []string{"1x"}},
+	{"two-x", []string{"%", "second/b.png"}, []string{"1x", "2x"}},
+	{"two-w-probe-last", []string{"/first/a.png", "%"}, []string{"200w", "400w"}},
+	{"three-w", []string{"small/a.png", "%", "/large/c.png"}, []string{"200w", "400w", "800w"}},
+	{"three-x-same-probe", []string{"%", "%", "other.png"}, []string{"1x", "2x", "3.5x"}},
+}
+
+// fixed orderings in which a later candidate's URL text occurs inside an earlier one
+var govcC06SrcsetFixed = []govcC06SrcsetShape{
+	{"substring-later", []string{"large/hero.png", "hero.png"}, []string{"2x", "1x"}},
+	{"substring-later-3", []string{"img/large/hero.png", "large/hero.png", "hero.png"}, []string{"3x", "2x", "1x"}},
+	{"same-file-twice", []string{"/static/t.png", "/static/t.png"}, []string{"1x", "2x"}},
+	{"same-file-twice-w", []string{"t.png", "t.png", "dir/t.png"}, []string{"100w", "200w", "300w"}},
+	{"prefix-earlier", []string{"a.png", "a.png.webp"}, []string{"1x", "2x"}},
+	{"abs-then-suffix", []string{"http://cdn.example.org/pix/hero.png", "pix/hero.png"}, []string{"2x", "1x"}},
+	{"host-like-path", []string{"example.com/hero.png", "/hero.png"}, []string{"2x", "1x"}},
+}
+
+func govcC06SrcsetText(urls, descs []string) string {
+	parts := make([]string, len(urls))
+	for i := range urls {
+		parts[i] = urls[i]
+		if descs[i] != "" {
+			parts[i] += " " + descs[i]
+		}
+	}
+	return strings.Join(parts, ", ")
+}
+
+func govcC06SrcsetProbes(urls, descs []string) []govcC06Probe {
+	ss := govcC06Esc(govcC06SrcsetText(urls, descs))
+	fix := "http://static.example.net/base.png"
+	imgs := append([]string{fix}, urls...)
+	return []govcC06Probe{
+		{kind: "img-srcset", attr: "srcset", vals: urls, descs: descs, find: govcC06Sel("img[alt=govcprobe]"), images: imgs,
+			snippet: `<img src="` + fix + `" srcset="` + ss + `" alt="govcprobe">`},
+		{kind: "figure-img-srcset", attr: "srcset", vals: urls, descs: descs, find: govcC06Sel("figure img[alt=govcprobe]"), images: imgs,
+			snippet: `<figure><img src="` + fix + `" srcset="` + ss + `" alt="govcprobe"><figcaption>Cranes at the new terminal during the night shift</figcaption></figure>`},
+		{kind: "picture-source-srcset", attr: "srcset", vals: urls, descs: descs, find: govcC06Sel("picture source"), images: imgs,
+			snippet: `<picture><source srcset="` + ss + `" type="image/png"><img src="` + fix + `" alt="fallback"></picture>`},
+	}
+}
+
+func govcC06Doc(snippet string) string {
+	return `<html><head><title>Harbour report shows rising freight volumes</title></head><body><div id="content"><article>` +
+		`<p>` + govcC06Prose[0] + `</p><p>` + govcC06Prose[1] + `</p>` + snippet +
+		`<p>` + govcC06Prose[2] + `</p><p>` + govcC06Prose[3] + `</p></article></div></body></html>`
 }
 
 func TestGovcAbsURLReplay(t *testing.T) {
-	for di, src := range govcAbsDocs {
-		u, _ := nurl.Parse("http://example.com/dir/page.html")
-		res, err := ApplyForReader(strings.NewReader(src), &Options{OriginalURL: u})
-		if err != nil {
-			t.Fatal(err)
+	evals, nontrivial := 0, 0
+	seen := map[string]bool{}
+	defer func() {
+		fmt.Printf("GOVC-CASES evaluations=%d distinct_nontrivial=%d rule=%s\n", evals, nontrivial,
+			"19 URL forms x 11 carriers (a[href] in paragraph/table cell/figcaption, img[src] standalone/div/figure/table cell, video poster/src, video>source, video>track) + srcset (6 shapes x 14 forms + 7 fixed substring/duplicate orderings) x 3 carriers (img, figure img, picture>source), each x 3 page URLs + no page URL (control: unchanged); expected value computed with net/url ResolveReference, exact equality; non-trivial = the carrying element was retained in Result.Node")
+	}()
+
+	pages := []struct{ key, url string }{
+		{"dirpage", "http://example.com/dir/page.html"},
+		{"httpsroot", "https://example.com/"},
+		{"dirquery", "http://example.com/a/b/?x=1"},
+		{"nopage", ""},
+	}
+
+	type genCase struct {
+		key   string
+		probe govcC06Probe
+	}
+	var cases []genCase
+	for _, f := range govcC06Forms {
+		for _, p := range govcC06SingleProbes(f.val) {
+			cases = append(cases, genCase{f.key + "/" + p.kind, p})
 		}
-		for _, n := range dom.QuerySelectorAll(res.Node, "*") {
-			if dom.ClassName(n) == "embed-placeholder" {
+	}
+	for _, sh := range append(append([]govcC06SrcsetShape{}, govcC06SrcsetShapes...), govcC06SrcsetFixed...) {
+		forms := govcC06Forms
+		fixed := !strings.Contains(strings.Join(sh.urls, " "), "%")
+		if fixed {
+			forms = []govcC06Form{{"fixed", "", true}}
+		}
+		for _, f := range forms {
+			if !f.inSrcset {
 				continue
 			}
-			for _, attr := range []string{"href", "src", "poster"} {
-				if v := dom.GetAttribute(n, attr); !govcIsAbsOrPass(v) {
-					t.Errorf("doc %d: <%s %s=%q> is not absolute although a page URL was supplied", di, dom.TagName(n), attr, v)
-				}
+			urls := make([]string, len(sh.urls))
+			for i, u := range sh.urls {
+				urls[i] = strings.ReplaceAll(u, "%", f.val)
 			}
-			if ss := dom.GetAttribute(n, "srcset"); ss != "" {
-				for _, cand := range strings.Split(ss, ",") {
-					f := strings.Fields(cand)
-					if len(f) > 0 && !govcIsAbsOrPass(f[0]) {
-						t.Errorf("doc %d: srcset candidate %q is not absolute", di, f[0])
+			for _, p := range govcC06SrcsetProbes(urls, sh.descs) {
+				cases = append(cases, genCase{f.key + "/" + p.kind + "/" + sh.key, p})
+			}
+		}
+	}
+
+	for _, pg := range pages {
+		var base *nurl.URL
+		if pg.url != "" {
+			base, _ = nurl.Parse(pg.url)
+		}
+		for _, gc := range cases {
+			key := gc.key + "/" + pg.key
+			if seen[key] {
+				t.Fatalf("duplicate case key %s", key)
+			}
+			seen[key] = true
+			pr := gc.probe
+			opts := &Options{SkipPagination: true}
+			if base != nil {
+				opts.OriginalURL = base
+			}
+			res, err := ApplyForReader(strings.NewReader(govcC06Doc(pr.snippet)), opts)
+			evals++
+			if err != nil || res == nil || res.Node == nil {
+				t.Errorf("GOVC-FAIL %s :: distillation failed: %v", key, err)
+				continue
+			}
+
+			// (1) the probe: exact expected value
+			el := pr.find(res.Node)
+			observed := "(element not retained)"
+			if el != nil && dom.HasAttribute(el, pr.attr) {
+				nontrivial++
+				got := dom.GetAttribute(el, pr.attr)
+				observed = got
+				if pr.attr != "srcset" {
+					want := govcC06Expected(pr.vals[0], base)
+					if got != want {
+						if base == nil {
+							t.Errorf("GOVC-FAIL %s :: <%s %s=%q> became %q although no page URL was supplied (must be unchanged)", key, dom.TagName(el), pr.attr, pr.vals[0], got)
+						} else if !govcC06AbsOrPass(got) {
+							t.Errorf("GOVC-FAIL %s :: <%s %s=%q> is %q in the distilled HTML: not absolute although page URL %s was supplied (expected %q)", key, dom.TagName(el), pr.attr, pr.vals[0], got, pg.url, want)
+						} else {
+							t.Errorf("GOVC-FAIL %s :: <%s %s=%q> is %q in the distilled HTML, which is not the value resolved against %s (expected %q; pass-through forms must be unchanged)", key, dom.TagName(el), pr.attr, pr.vals[0], got, pg.url, want)
+						}
+					}
+				} else {
+					cands := govcC06ParseSrcset(got)
+					if len(cands) != len(pr.vals) {
+						t.Errorf("GOVC-FAIL %s :: srcset %q became %q: %d candidates instead of %d", key, govcC06SrcsetText(pr.vals, pr.descs), got, len(cands), len(pr.vals))
+					} else {
+						for i, c := range cands {
+							want := govcC06Expected(pr.vals[i], base)
+							if c.url != want || c.desc != pr.descs[i] {
+								note := "is not the value resolved against the page URL"
+								if base == nil {
+									note = "was changed although no page URL was supplied"
+								} else if !govcC06AbsOrPass(c.url) {
+									note = "is not absolute although a page URL was supplied"
+								}
+								t.Errorf("GOVC-FAIL %s :: srcset %q became %q: candidate %d %q %q %s (expected %q %q)", key, govcC06SrcsetText(pr.vals, pr.descs), got, i, c.url, c.desc, note, want, pr.descs[i])
+							}
+						}
 					}
 				}
 			}
-		}
-		for _, im := range res.ContentImages {
-			if !govcIsAbsOrPass(im) {
-				t.Errorf("doc %d: ContentImages entry %q is not absolute", di, im)
+			if evals <= 3 {
+				fmt.Printf("GOVC-SAMPLE %s page=%s %s=%q -> %q images=%q\n", key, pg.url, pr.attr, govcC06SrcsetText(pr.vals, make([]string, len(pr.vals))), observed, res.ContentImages)
+			}
+
+			// (2) every URL-valued attribute of the distilled HTML outside embed placeholders
+			if base != nil {
+				for _, n := range dom.QuerySelectorAll(res.Node, "*") {
+					skip := false
+					for p := n; p != nil; p = p.Parent {
+						if p.Type == html.ElementNode && strings.Contains(dom.ClassName(p), "embed-placeholder") {
+							skip = true
+						}
+					}
+					if skip {
+						continue
+					}
+					for _, attr := range []string{"href", "src", "poster"} {
+						if v := dom.GetAttribute(n, attr); !govcC06AbsOrPass(v) {
+							t.Errorf("GOVC-FAIL %s/any-%s :: <%s %s=%q> in the distilled HTML is not absolute although page URL %s was supplied", key, attr, dom.TagName(n), attr, v, pg.url)
+						}
+					}
+					if ss := dom.GetAttribute(n, "srcset"); ss != "" {
+						for _, c := range govcC06ParseSrcset(ss) {
+							if !govcC06AbsOrPass(c.url) {
+								t.Errorf("GOVC-FAIL %s/any-srcset :: srcset candidate %q of <%s srcset=%q> is not absolute although page URL %s was supplied", key, c.url, dom.TagName(n), ss, pg.url)
+							}
+						}
+					}
+				}
+			}
+
+			// (3) ContentImages: each entry is the resolved form of an image URL of the document
+			allowed := map[string]bool{}
+			for _, im := range pr.images {
+				allowed[govcC06Expected(im, base)] = true
+			}
+			for i, im := range res.ContentImages {
+				if base != nil && !govcC06AbsOrPass(im) {
+					t.Errorf("GOVC-FAIL %s/images :: ContentImages[%d]=%q is not absolute although page URL %s was supplied", key, i, im, pg.url)
+				} else if !allowed[im] {
+					t.Errorf("GOVC-FAIL %s/images :: ContentImages[%d]=%q is not an image URL of the page resolved against %q (image URLs written: %q)", key, i, im, pg.url, pr.images)
+				}
 			}
 		}
 	}
